@@ -117,14 +117,15 @@ func Clean(m *testing.M, opts ...CleanOpts) {
 	}
 }
 
-// getTestID will return the testID if the line is in the form of [Test... - number]
+// getTestID will return the testID if the line is in the form of [<test name> - number]
 func getTestID(b []byte) (string, bool) {
 	if len(b) == 0 {
 		return "", false
 	}
 
-	// needs to start with [Test and end with ]
-	if !bytes.HasPrefix(b, []byte("[Test")) || b[len(b)-1] != ']' {
+	// needs to start with [ and end with ]; the name is whatever t.Name() returned
+	// (Test…, but also Fuzz… and Benchmark…)
+	if !bytes.HasPrefix(b, []byte("[")) || b[len(b)-1] != ']' {
 		return "", false
 	}
 
